@@ -337,6 +337,28 @@ def evaluate(ctx, cases):
                 slots.append(i)
         except (KeyError, UnicodeEncodeError, InfraError):
             continue
+    # mirror: the model's str(Decimal) and its own reader, with orso out of the picture
+    rd_lines, rd_vals = [], []
+    for c in cases:
+        if c["val"] is not None and c["val"].get("t") == "dec":
+            d = py_val(c["val"])
+            try:
+                w = wire_val(d)
+            except KeyError:
+                continue
+            if d.is_finite() and abs(d.adjusted()) > 5000:
+                continue
+            rd_lines.append("C07 renderdec " + wire.line(w))
+            rd_vals.append(d)
+    for d, o in zip(rd_vals, ctx.model.batch(rd_lines)):
+        if not o.startswith("ok "):
+            raise InfraError("model rejected renderdec of %r: %r" % (d, o))
+        txt, back = wire.dec_all(o[3:])
+        if txt != str(d):
+            raise InfraError("model renders Decimal %r as %r, Python as %r" % (d, txt, str(d)))
+        if back is None or not same(unwire_val(back), d):
+            raise InfraError("model does not read back its rendering of %r" % (d,))
+        ctx.hit("decimal-rendering-mirror")
     mres = {}
     for i, o in zip(slots, ctx.model.batch(lines)):
         if not o.startswith("ok "):
